@@ -6,6 +6,7 @@ from ..engine.atomics import inventory, is_acquire, is_release, target_of
 from ..engine.dtable import canon
 from ..engine.fold import fold
 from ..engine import asm
+from ..engine import pathsens
 from .c12 import mentions
 from .futexflavour import check_flavour
 
@@ -141,6 +142,39 @@ def check_trampoline_a64(ck, prog, rule_c05, rule_c06):
     ck.ob(rule_c06, "a64|no-stack-use-after-munmap", not [e for e in events[i1 + 1:] if e[0] in ("stack", "call")], detail="stack touched after munmap")
 
 
+def infeasible_edges(ctx):
+    """Switch edges contradicting a test that dominates them: after `x.is_err() == false` (or the Ok arm of a match on x) the
+    Break/Err edge of a later `x?` cannot be taken. Keyed on the canonical expression of x (temporaries are single-assignment)."""
+    from ..engine.prov import strip_casts
+    POS, NEG = ("Ok", "Some", "Continue"), ("Err", "None", "Break")
+    cfg = ctx.cfg
+    tests = []
+    for sb in cfg.live_blocks():
+        if cfg.term(sb)["k"] != "switch":
+            continue
+        for e in cfg.succ[sb]:
+            for f in ctx.edge_facts(e):
+                if f[0] != "variant" or f[2] not in POS + NEG:
+                    continue
+                x = strip_casts(f[1])
+                n = 0
+                while isinstance(x, tuple) and x and n < 6:
+                    if x[0] == "call" and (x[1] or "").endswith("Try::branch") and x[2]:
+                        x = strip_casts(x[2][0])
+                    elif x[0] in ("ref",):
+                        x = strip_casts(x[2])
+                    else:
+                        break
+                    n += 1
+                tests.append((e, canon(x), f[2] in POS))
+    out = set()
+    for e2, k2, p2 in tests:
+        for e1, k1, p1 in tests:
+            if e1 is not e2 and k1 == k2 and p1 != p2 and e1.src != e2.src and cfg.edge_dominates(e1, e2.src):
+                out.add((e2.src, e2.dst))
+    return out
+
+
 def check_failure_release(ck, prog, rule):
     """Every resource spawn acquires (join block, boxed closure, stack mapping, TLS block) is released again on every path
     on which spawn returns an error: a failed spawn leaves nothing behind."""
@@ -160,6 +194,7 @@ def check_failure_release(ck, prog, rule):
         "tls-block": ([bb for bb in T.call_blocks_suffix(ctx, "Box::<T>::into_raw") ], lambda t: (t.get("callee") or "").endswith("Box::<T>::from_raw")),
     }
     ok_blocks = {b["id"] for b in sp["blocks"] for s in b["stmts"] if s["k"] == "assign" and s["dst"]["l"] == 0 and s["rv"]["k"] == "agg" and s["rv"].get("variant") == "Ok"}
+    infeasible = infeasible_edges(ctx)
     for name, (creators, is_free) in resources.items():
         ck.ob(rule, f"anchor|{name}", len(creators) >= 1, fn=T.SPAWN, detail=f"creation site of the {name} not found")
         for cr in creators[:1]:
@@ -183,8 +218,10 @@ def check_failure_release(ck, prog, rule):
                                 succ_edges.append(e)
             starts = [e.dst for e in succ_edges] or [start]
             r = set()
-            for s0 in starts:
-                r |= cfg.reachable_from(s0, avoid=frees | ok_blocks)
+            for e0 in succ_edges:
+                r |= pathsens.reachable(ctx, e0.dst, avoid=frees | ok_blocks, avoid_edges=infeasible, via_edge=(e0.src, e0.dst))
+            if not succ_edges:
+                r |= pathsens.reachable(ctx, start, avoid=frees | ok_blocks, avoid_edges=infeasible)
             leaks = [rb for rb in cfg.return_blocks() if rb in r]
             path = None
             if leaks:
